@@ -130,6 +130,30 @@ Definition add (fields : list field) (key value : bytes) : list field :=
 (* copy: Serializable.copy -> from_state(get_state()) -> Headers(fields): a new object, same tuples *)
 Definition copy (fields : list field) : list field := fields.
 
+(* ---------------------------------------------------------------- read views *)
+(* Headers.items(multi=False) -> _MultiDict.items -> Mapping.items -> ItemsView:
+   for key in self: yield (key, self[key]); None = a KeyError escaped *)
+Fixpoint items_loop (fields : list field) (ks : list bytes) : option (list field) :=
+  match ks with
+  | [] => Some []
+  | key :: ks' =>
+      match getitem fields key with
+      | None => None
+      | Some v => match items_loop fields ks' with
+                  | Some r => Some ((key, v) :: r)
+                  | None => None
+                  end
+      end
+  end.
+Definition items (fields : list field) : option (list field) := items_loop fields (iter fields).
+(* keys(multi=False) = (k for k, _ in self.items(False)); values likewise *)
+Definition keys (fields : list field) : option (list bytes) := option_map (map fst) (items fields).
+Definition values (fields : list field) : option (list bytes) := option_map (map snd) (items fields).
+(* items(multi=True) = the fields; keys/values(multi=True) project them *)
+Definition items_multi (fields : list field) : list field := fields.
+Definition keys_multi (fields : list field) : list bytes := map fst (items_multi fields).
+Definition values_multi (fields : list field) : list bytes := map snd (items_multi fields).
+
 (* ---------------------------------------------------------------- operation histories *)
 (* Two registers (header objects) so that copy and equality are observable inside a history.
    t selects the register an operation is applied to (false = register 0). *)
